@@ -3,6 +3,9 @@ import XjsModel.Model.Ast
   The comment entries of a tree, in source order: the `LeadingComments` of every token the tree stores (the token of
   each node, identifiers, closing parentheses / brackets / braces). A comment in a statement list — before a
   statement, or before the closing brace — is attached to the first token of that statement, or to that brace.
+  One node is not in source order: a postfix operator's entries come before its operand's, because that is where
+  `PostfixExpression.WriteTo` replays them. A parsed tree has none there: a token after a `//` comment is after a
+  line break, and `++`/`--` after a line break is not a postfix operator.
   An entry is the comment text; an empty entry stands for a blank line. Trusted specification (like `Spec/Flat`).
 -/
 namespace Xjs
@@ -19,7 +22,7 @@ mutual
     | .letE tok name v => tok.comments ++ identCmts name ++ v.cmts
     | .binary tok l _ r => l.cmts ++ tok.comments ++ r.cmts
     | .unary tok _ r => tok.comments ++ r.cmts
-    | .postfix tok l _ => l.cmts ++ tok.comments
+    | .postfix tok l _ => tok.comments ++ l.cmts
     | .group tok e rp => tok.comments ++ e.cmts ++ rp.comments
     | .call tok f args => f.cmts ++ tok.comments ++ args.cmts
     | .member tok o p _ => o.cmts ++ tok.comments ++ p.cmts
@@ -49,5 +52,16 @@ mutual
     | .nil => []
     | .cons k v t => k.cmts ++ v.cmts ++ t.cmts
 end
+
+/-- what `WriteLeadingComments` puts in the output for one entry: the first entry follows the code on the same line
+    after a space (nothing for a blank-line entry), every later entry starts a new indented line; a non-empty entry
+    is written verbatim after `//` -/
+def commentSeg (indent : Bytes) (first : Bool) (c : Bytes) : Bytes :=
+  (if first then (if c.isEmpty then [] else [32]) else [10] ++ indent) ++ (if c.isEmpty then [] else [47, 47]) ++ c
+
+/-- the text for a run of entries -/
+def commentText (indent : Bytes) : List Bytes → Bool → Bytes
+  | [], _ => []
+  | c :: rest, first => commentSeg indent first c ++ commentText indent rest false
 
 end Xjs
